@@ -125,12 +125,26 @@ def run_race(ctx, racebin, cases, iters, gs, tag):
 
 
 def top_frames(report):
-    """function names of the innermost frames of the two conflicting accesses of the first report"""
+    """for each of the two conflicting accesses of the first report: the innermost frame that belongs to the
+    implementation (go.starlark.net/...) if the access reaches one before any harness frame (a race inside a standard
+    library object owned by the implementation is the implementation's), else the innermost frame"""
     tops = []
     lines = report.split("\n")
     for i, l in enumerate(lines):
         if re.match(r"\s*(Previous )?(atomic )?([Ww]rite|[Rr]ead) at 0x[0-9a-f]+ by ", l) and i + 1 < len(lines):
-            tops.append(re.sub(r"\(\)$", "", lines[i + 1].strip()))
+            frames = []
+            j = i + 1
+            while j < len(lines) and lines[j].strip():
+                frames.append(re.sub(r"\(\)$", "", lines[j].strip()))
+                j += 2
+            pick = frames[0] if frames else ""
+            for f in frames:
+                if f.startswith("go.starlark.net/"):
+                    pick = f
+                    break
+                if f.startswith("main.") or f.startswith("verifharness"):
+                    break
+            tops.append(pick)
         if len(tops) == 2:
             break
     return tops
